@@ -759,7 +759,7 @@ class Interp:
     def _kill_call(self, st: St, call: ast.Call, callees=None, externals=None, fr=None):
         """an impure call: facts on what it may write and on the receiver die"""
         recv = None
-        if isinstance(call.func, ast.Attribute):
+        if isinstance(call, ast.Call) and isinstance(call.func, ast.Attribute):
             recv = _dotted(call.func.value)
         if not callees and externals and fr is not None and all(
                 ext[0] == 'extmeth' and ext[1] in _CONTAINER_TYPES for ext in externals):
@@ -1328,8 +1328,22 @@ class Interp:
                 self._kill_suspend(st, fr)
             else:
                 self._kill_call_generic(st)
+            if how == 'await' and expr is not None and self._is_condition(expr, fr):
+                # await post-condition: `await c` returns only while c holds
+                # (licensed by the EXIT-PRED rule of C08)
+                key, positive = self.atom_key(expr, fr)
+                if key is not None:
+                    st.facts[key] = positive
             results.append((NORMAL, st))
         return results
+
+    CONDITION = 'usim._primitives.condition.Condition'
+
+    def _is_condition(self, expr, fr) -> bool:
+        classes = self.te.classes_of(self.etype(expr, fr))
+        types = self.etype(expr, fr)
+        return bool(classes) and all(t[0] == 'inst' for t in types) and all(
+            self.p.is_subclass(qn, self.CONDITION) for qn in classes)
 
     def _kill_call_generic(self, st: St):
         for key in [k for k in st.facts if _fact_has_attr(k)]:
@@ -1342,11 +1356,24 @@ class Interp:
                        assume=self.assume_for(callee, which) if which else None)
         saved_facts = st.facts
         st.facts = dict(sub.assume) if sub.assume else {}
+        same_self = self._same_self(node, fr, callee)
+        if same_self:
+            # `self.helper()` / `super().m()`: `self` names the same object in both frames
+            for key_, value in saved_facts.items():
+                deps = _fact_deps(key_)
+                if deps and all(d == 'self' or d.startswith('self.') for d in deps):
+                    st.facts[key_] = value
         self.stats['functions'].add(callee.key())
         results = []
         for out, s in self.exec_block(callee.fn.node.body, st, sub):
+            inner = s.facts
             s.facts = {k: v for k, v in saved_facts.items()
                        if k[0] in ('isnone', 'is') and not _fact_has_attr(k)}
+            if same_self:
+                for key_, value in inner.items():
+                    deps = _fact_deps(key_)
+                    if deps and all(d == 'self' or d.startswith('self.') for d in deps):
+                        s.facts[key_] = value
             self._emit(s, 'leave', node, fr, callee=callee, how=how, outcome=out[0],
                        ret=out[1] if out[0] == 'return' else None)
             if out[0] in ('normal', 'return'):
@@ -1356,6 +1383,25 @@ class Interp:
             else:
                 raise AnalysisError('break/continue escaping %s' % callee)
         return results
+
+    def _same_self(self, node, fr: DynFrame, callee: Callee) -> bool:
+        """the call is ``self.m(...)`` / ``super().m(...)`` with both selves named `self`"""
+        call = node
+        if isinstance(node, ast.Await):
+            call = node.value
+        if not (isinstance(call, ast.Call) and isinstance(call.func, ast.Attribute)):
+            return False
+        recv = call.func.value
+        is_self = isinstance(recv, ast.Name) and recv.id == 'self'
+        is_super = isinstance(recv, ast.Call) and isinstance(recv.func, ast.Name) and \
+            recv.func.id == 'super'
+        if not (is_self or is_super):
+            return False
+        args = callee.fn.node.args.posonlyargs + callee.fn.node.args.args
+        cargs = fr.fn.node.args.posonlyargs + fr.fn.node.args.args \
+            if not isinstance(fr.fn.node, ast.Lambda) else []
+        return bool(args) and args[0].arg == 'self' and bool(cargs) and \
+            cargs[0].arg == 'self'
 
     def do_anext(self, stmt, types, st: St, fr: DynFrame, end: bool):
         callees, unresolved = [], False
@@ -1538,7 +1584,7 @@ class Interp:
         return results
 
     def _kill_call_node(self, st, node, callees=None, externals=None, fr=None):
-        if isinstance(node, ast.Call):
+        if isinstance(node, ast.Call) or callees:
             self._kill_call(st, node, callees, externals, fr)
         else:
             self._kill_call_generic(st)
